@@ -40,7 +40,7 @@ CLAIMS = {
             'Trusted: Lean kernel (+ propext, Classical.choice, Quot.sound) ONLY — since round 8 no theorem of C07 (incl. C07_emitted, which needs the interleaving positions) uses native_decide; translator; hand model of division / structure tied by unit-level correspondence.',
             'Lean 4 symbolic algebra (field laws, loop invariant) + decide +kernel on regenerated GF tables/generators + differential unit check'),
     "C08": ("proof",
-            "Lean 4, for every legal side, mask and EVERY matrix: the model sweep flips exactly the Data-typed cells where the ISO "
+            "Lean 4, for EVERY side n (not only the 40 legal ones), every mask number and EVERY well-formed matrix: the model sweep flips exactly the Data-typed cells where the ISO "
             "Table 10 condition holds (C08_mask_flips: induction over the sweep + SweepSym.count_parity: visit parity of each of the eight sweeps = Table 10 condition proved symbolically for EVERY side n, no native_decide), "
             "involution, pair difference, same unmasked matrix (C08_involution, C08_pair, C08_unmask_same); C08_final_pair / C08_final_unmask: two FINAL symbols of the same codewords built with masks a and b differ on encoding-region modules exactly where the ISO conditions disagree and are identical on every module that is neither encoding region nor format information, for every codeword sequence and level. Exhaustive unit "
             "correspondence: real datamasking::mask on the real blank symbols 40 x 8 x 2; all 28 mask pairs of real builds.",
